@@ -18,7 +18,8 @@ CONSTANTS MaxH,      \* max number of handles (buffers)
           MaxLen,    \* history length bound
           NLs,       \* set of newline counts a written fragment may carry
           Poses,     \* set of source-position ids a writer may be marked with
-          Dump       \* TRUE: print every history of length MaxLen
+          Dump,      \* TRUE: print every history of length MaxLen
+          LineNums   \* the emit_linenums option of the writers (line directives)
 
 VARIABLES docs,   \* reference: handle -> token sequence (<<>> when h is not a detached root)
           nh,     \* number of handles created so far (handles are 1..nh)
@@ -99,6 +100,19 @@ Write(h, nl) ==
   /\ UNCHANGED <<nh, mpos, node, kids, nn>>
   /\ Log("write", h, nl, mpos[h])
 
+(* CCodeWriter.putln(code): with line directives on and a marked position the   *)
+(* writer first emits "\n#line N "file"\n" (two newlines), then the code and   *)
+(* "\n"; every emitted newline gets a marker.  One fragment with 3 (or 1) lines *)
+PutLn(h) ==
+  LET nl == IF LineNums /\ mpos[h] # 0 THEN 3 ELSE 1
+      f == Frag(nf + 1, nl, mpos[h]) r == RootOf(h) n == node[h] IN
+  /\ nf' = nf + 1
+  /\ docs' = [docs EXCEPT ![r] = InsertBefore(@, Close(h), <<f>>)]
+  /\ strm' = [strm EXCEPT ![n] = Append(@, f)]
+  /\ mark' = [mark EXCEPT ![n] = @ \o Rep(mpos[h], nl)]
+  /\ UNCHANGED <<nh, mpos, node, kids, nn>>
+  /\ Log("putln", h, nl, mpos[h])
+
 (* mark_pos: the writer's current source position changes *)
 Mark(h, p) ==
   /\ p # mpos[h]
@@ -152,12 +166,13 @@ Commit(h) ==
 
 More == Len(hist) < MaxLen
 DoWrite  == More /\ \E h \in Handles, nl \in NLs : Write(h, nl)
+DoPutLn  == More /\ \E h \in Handles : PutLn(h)
 DoMark   == More /\ \E h \in Handles, p \in Poses : Mark(h, p)
 DoIP     == More /\ \E h \in Handles : InsertionPoint(h)
 DoNew    == More /\ \E h \in Handles : NewTree(h)
 DoInsert == More /\ \E h \in Handles, t \in Handles : Insert(h, t)
 DoCommit == More /\ \E h \in Handles : Commit(h)
-Next == DoWrite \/ DoMark \/ DoIP \/ DoNew \/ DoInsert \/ DoCommit
+Next == DoWrite \/ DoPutLn \/ DoMark \/ DoIP \/ DoNew \/ DoInsert \/ DoCommit
 
 Spec == Init /\ [][Next]_vars
 
